@@ -114,7 +114,7 @@ mod verif_replay_search {
                 prev = window.last().map(|b| b.hash).unwrap_or(BlockHash::all_zeros());
             }
             if let Err(e) = check(&idx, &window, &gone, n) {
-                return Err(format!("after step {} of {:?} (window size {}): {}", step + 1, &ops[..=step], n, e));
+                return Err(format!("after step {} of {:?} (window size {}): {{C19}} {}", step + 1, &ops[..=step], n, e));
             }
         }
         Ok(())
@@ -128,7 +128,7 @@ mod verif_replay_search {
                 let mut ops = vec![0u8; len];
                 loop {
                     // the first n operations are connections (bootstrap fills the window)
-                    if let Err(e) = std::panic::catch_unwind(|| run(n, &ops)).unwrap_or_else(|_| Err(format!("{:?} (window size {}): the real code panicked", ops, n))) {
+                    if let Err(e) = std::panic::catch_unwind(|| run(n, &ops)).unwrap_or_else(|_| Err(format!("{:?} (window size {}): {{C11,C19}} the real code panicked", ops, n))) {
                         println!("REPLAY-FAIL ops(0..2 = connect a block with that many txs, 3 = disconnect the tip) {}", e);
                         panic!("replay found a failing sequence");
                     }
